@@ -18,6 +18,7 @@ import (
 	"runtime"
 	"strings"
 	"sync"
+	"sync/atomic"
 	"time"
 
 	"github.com/koron-go/z80"
@@ -56,7 +57,7 @@ func runVecQuiet(v *Vec) (res string) {
 		for k := 0; k < v.N; k++ {
 			for _, in := range v.Inj {
 				if in.At == k {
-					cpu.Interrupt = mkIntr(in.Intr.Type, in.Intr.Data)
+					cpu.Interrupt = mkIntr(w, in.Intr.Type, in.Intr.Data)
 				}
 			}
 			cpu.Step()
@@ -219,6 +220,42 @@ func cmdCtx(args []string) {
 		}
 	}
 	report("cancel-during", true, "40 runs: context.Canceled / DeadlineExceeded within 2s, state after a whole number of Steps")
+	// 3b. the same with a request pending that the CPU keeps refusing (maskable, IFF1 clear; or an interrupt mode outside 0..2): the program
+	//     state must not matter to cancellation.  Run is watched from outside: if it has not returned 2 s after the cancellation the memory is
+	//     switched to read as HALT so that the runaway Run ends and nothing is left behind
+	for i := 0; i < 8; i++ {
+		sm := &switchMem{}
+		cpu := &z80.CPU{States: z80.States{SPR: z80.SPR{PC: 0x0100, SP: 0xf000}}, Memory: sm}
+		cpu.IFF1 = false
+		cpu.IM = []int{1, 2, 0, 7}[i%4]
+		if cpu.IM == 7 {
+			cpu.IFF1 = true // accepted by the gate, refused by the mode dispatch
+		}
+		cpu.Interrupt = []*z80.Interrupt{z80.IM1Interrupt(), z80.IM2Interrupt(0x10), z80.IM0Interrupt(0xff), z80.IM1Interrupt()}[i%4]
+		ctx, cancel := context.WithCancel(context.Background())
+		if i >= 4 {
+			cancel() // cancelled before the call
+		} else {
+			go func() { time.Sleep(2 * time.Millisecond); cancel() }()
+		}
+		done := make(chan error, 1)
+		go func() { done <- cpu.Run(ctx) }()
+		var err error
+		returned := true
+		select {
+		case err = <-done:
+		case <-time.After(3 * time.Second):
+			returned = false
+			sm.halt.Store(true)
+			<-done
+		}
+		cancel()
+		if !returned || !errors.Is(err, context.Canceled) || cpu.Interrupt == nil || (cpu.PC != 0x0100 && cpu.PC != 0x0101) {
+			report("cancel-pending-request", false, fmt.Sprintf("i=%d IM=%d returned_within_3s=%v err=%v PC=%04x request_still_pending=%v (a JR loop with a refused request waiting must be cancellable like any other)", i, cpu.IM, returned, err, cpu.PC, cpu.Interrupt != nil))
+			return
+		}
+	}
+	report("cancel-pending-request", true, "8 runs: a tight loop with a refused request pending (IM 1 / IM 2 / IM 0 with IFF1 clear, IM 7) returns context.Canceled, request still pending")
 	// 4. bounded delay for an I/O loop: the device takes real time per access, so "a few more instructions" after
 	//    cancellation must stay a few — whatever the loop is made of
 	for i := 0; i < 4; i++ {
@@ -299,6 +336,25 @@ func cmdFlags() {
 	}
 	fmt.Printf("done get=%d set=%d reset=%d u16=%d const=%d pairs=65536 values=65536\n", bad["get"], bad["set"], bad["reset"], bad["u16"], bad["const"])
 }
+
+// switchMem: NOP; JR -3 at 0100h (a two-instruction loop), until told to read as HALT everywhere
+type switchMem struct{ halt atomic.Bool }
+
+func (m *switchMem) Get(a uint16) uint8 {
+	if m.halt.Load() {
+		return 0x76
+	}
+	switch a {
+	case 0x0100:
+		return 0x00 // NOP
+	case 0x0101:
+		return 0x18 // JR -3
+	case 0x0102:
+		return 0xfd
+	}
+	return 0x00
+}
+func (m *switchMem) Set(uint16, uint8) {}
 
 // slowIO: every port read takes 200us; counts the reads that BEGIN after the context is done (and stops sleeping after
 // 400 of them so that a failing run still ends quickly)
